@@ -416,7 +416,7 @@ fn one_schedule(ctx: &Ctx, out: &mut Outcome, rng: &mut Rng, idx: u64) {
         if !accepted {
             out.violation(
                 "C02/refusable-operation-committed",
-                &format!("operation {} must be refused (unknown target) but committed", op.desc),
+                &format!("operation {} must be refused (unknown target or missing source) but committed", op.desc),
                 witness(&events),
             );
         }
